@@ -227,6 +227,29 @@ def rule_r4(ctx) -> List[R.Inst]:
         return [R.undec("C12.R4", "_update.projection", file, line, "write-back loop not recognised")]
     o, i, j = [unparse(t) for t in loops[0].target.elts]
     body = loops[0].body
+    # local single-assignment names are resolved into the final store; a transformation applied to the projected slice on the way
+    # (astype, round, clip ...) is reported: the write-back hands each list its own rows of the stacked frame, values unchanged
+    stores = [st for st in body if isinstance(st, ast.Assign) and isinstance(st.targets[0], ast.Attribute)]
+    locs = {st.targets[0].id: st.value for st in body if isinstance(st, ast.Assign) and isinstance(st.targets[0], ast.Name)}
+    if len(stores) == 1 and len(body) > 1 and all(isinstance(st, ast.Assign) for st in body):
+        v = stores[0].value
+        wrappers = []
+        while True:
+            if isinstance(v, ast.Name) and v.id in locs:
+                v = locs[v.id]
+                continue
+            if isinstance(v, ast.Call) and isinstance(v.func, ast.Attribute) and v.func.attr in (
+                    "astype", "round", "clip", "fillna", "convert_dtypes", "infer_objects", "apply", "map", "abs"):
+                wrappers.append(v.func.attr)
+                v = v.func.value
+                continue
+            break
+        if wrappers:
+            return [R.viol("C12.R4", "_update.projection", file, stores[0].lineno,
+                           f"the rows written back to a list pass through '{wrappers[-1]}': an edit made on the stack reaches the list "
+                           f"converted (a cast to the list's old integer dtypes truncates the fractional result of 'stack.offset /= 4'), so "
+                           f"editing the stack no longer equals editing each list", construct=f"_update: {unparse(stores[0].value)[:100]} via {wrappers}")]
+        body = [ast.Assign(targets=stores[0].targets, value=v, lineno=stores[0].lineno)]
     if len(body) != 1 or not isinstance(body[0], ast.Assign):
         return [R.undec("C12.R4", "_update.projection", file, loops[0].lineno,
                         "write-back body is not a single assignment of the list's frame")]
